@@ -15,6 +15,11 @@ ListsSmall ==
       [i \in 1..GroupSize |-> IF i % 2 = 1 THEN 7 ELSE 3 + i],
       [i \in 1..GroupSize |-> IF i <= 2 THEN 5 ELSE IF i = GroupSize THEN 5 ELSE 40 + i] }
 
+ListsTwo ==
+    { [i \in 1..GroupSize |-> 10 + i],
+      [i \in 1..GroupSize |-> IF i <= 2 THEN 5 ELSE IF i = GroupSize THEN 5 ELSE 40 + i] }
+OneList == { [i \in 1..GroupSize |-> 10 + i] }
+
 \* abstract values: the harness instantiates every name with concrete values of that class
 KeyNames   == {"kFull", "kShortX", "kShortY", "kShortXY"}
 ChainNames == {"cMainnet", "cSepolia", "cDev", "cWide"}
